@@ -820,7 +820,7 @@ Definition check_case (k : ccase) :=
   | None =>
       if k_wf k && negb (wf_alias (table_fun cid_tab) (table_fun b58_tab) foreign_tab
                            (winit default_root (k_nns k)) (case_ops k))
-      then Some (99999%nat, VBool false) else None
+      then Some (4999%nat, VBool false) else None
   end.
 `)
 	sb.WriteString("Definition cases : list ccase := [\n")
